@@ -72,6 +72,12 @@ def run(tier, seed, replay=None):
             s = scenario(rnd, 2000 + j)
             s.update({"target_db": 1, "idles": [3, 7], "idle_ms": 1300, "drops": [], "resume_at": 0, "commands": 20})
             scen.append(s)
+        # a start from a checkpoint stored in a database other than 0, the source silent for more than a sender tick after +CONTINUE: the tool's
+        # opening SELECT is flushed on its own, and the checkpoint written with it must still be a stream position
+        for j in range(3 if thorough else 1):
+            s = scenario(rnd, 3000 + j)
+            s.update({"resume_at": 4 + j, "resume_db": 1 + j, "idles": [9], "drops": [], "commands": 20})
+            scen.append(s)
         for i, s in enumerate(scen):
             s["trace"] = sc.path("trace-%d.ndjson" % i)
 
